@@ -258,6 +258,10 @@ def _expression_helper(fi):
             t = st.targets[0].id
             if t in params or t in env or _has(st.value, (ast.Lambda, ast.NamedExpr, ast.Yield, ast.Await)):
                 return None
+            # a local holding the result of a call is evaluated once: it may be substituted only where it is read once
+            reads = sum(1 for later in body[body.index(st) + 1 :] for x in ast.walk(later) if isinstance(x, ast.Name) and x.id == t and isinstance(x.ctx, ast.Load))
+            if reads > 1 and _has(st.value, (ast.Call,)):
+                return None
             env[t] = _Subst(dict(env), {}).visit(ast.parse(ast.unparse(st.value), mode="eval").body)
         if _has(body[-1].value, (ast.Lambda, ast.NamedExpr)):
             return None
